@@ -149,7 +149,9 @@ type Op struct {
 	Sub      string   `json:"sub,omitempty"`
 	Mode     uint32   `json:"mode,omitempty"`
 	Svc      string   `json:"svc,omitempty"`
-	MapNS    bool     `json:"mapns,omitempty"` // a Browse of the map namespace: compared with Model map_browse, not part of the model history
+	MapNS    bool     `json:"mapns,omitempty"` // a request on the map namespace: not part of the model history (Browse is compared with Model map_browse)
+	Ident    string   `json:"ident,omitempty"` // activate: user identity token kind: "" / anonymous, username, issued, x509, garbage, none
+	Wait     bool     `json:"wait,omitempty"`  // publish: wait for the notification the subscription worker sends
 }
 
 type Outcome struct {
@@ -164,6 +166,11 @@ type Outcome struct {
 	IDs     []uint32  `json:"ids,omitempty"`
 	N       int       `json:"n,omitempty"`
 	Err     string    `json:"err,omitempty"`
+	Notifs  []NotifJ  `json:"notifs,omitempty"` // publish with wait: the data change notifications received
+}
+type NotifJ struct {
+	Handle uint32 `json:"handle"`
+	DV     DVal   `json:"dv"`
 }
 type BrowseR struct {
 	St   uint32  `json:"st"`
@@ -507,6 +514,7 @@ type runner struct {
 	sessions []uint64 // tokens in creation order
 	subs     []uint32
 	items    []uint32
+	handle   uint32 // client handles are unique per history (the publish queue of a subscription is keyed by them)
 }
 
 func (r *runner) client(ch int) *rawClient {
@@ -542,6 +550,12 @@ func (r *runner) token(sel string) (uint64, *ua.NodeID) {
 
 func (r *runner) resolveID(ref string) uint32 {
 	switch {
+	case strings.HasPrefix(ref, "last"): // k-th subscription from the end of those created so far
+		k, _ := strconv.Atoi(ref[4:])
+		if k < len(r.subs) {
+			return r.subs[len(r.subs)-1-k]
+		}
+		return 77760
 	case strings.HasPrefix(ref, "sub"):
 		k, _ := strconv.Atoi(ref[3:])
 		if k < len(r.subs) {
@@ -626,6 +640,9 @@ func (r *runner) exec(op Op) (map[string]any, Outcome) {
 			req.NodesToRead = append(req.NodesToRead, &ua.ReadValueID{NodeID: parseNID(rv.Node), AttributeID: ua.AttributeID(rv.Attr), DataEncoding: &ua.QualifiedName{}})
 		}
 		ev["reads"] = op.Reads
+		if op.MapNS {
+			ev["mapns"] = true
+		}
 		resp, err := c.call(req, tok, to)
 		if err != nil {
 			return ev, fail(err)
@@ -641,6 +658,9 @@ func (r *runner) exec(op Op) (map[string]any, Outcome) {
 			req.NodesToWrite = append(req.NodesToWrite, &ua.WriteValue{NodeID: parseNID(wv.Node), AttributeID: ua.AttributeID(wv.Attr), Value: mkDV(wv.Val)})
 		}
 		ev["writes"] = op.Writes
+		if op.MapNS {
+			ev["mapns"] = true
+		}
 		resp, err := c.call(req, tok, to)
 		if err != nil {
 			return ev, fail(err)
@@ -699,8 +719,24 @@ func (r *runner) exec(op Op) (map[string]any, Outcome) {
 		ev["crypto_ok"] = true
 		return ev, Outcome{K: "createsession", Tok: t}
 	case "activate":
-		req := &ua.ActivateSessionRequest{ClientSignature: &ua.SignatureData{}, UserIdentityToken: ua.NewExtensionObject(&ua.AnonymousIdentityToken{PolicyID: "anonymous"}), UserTokenSignature: &ua.SignatureData{}}
+		var ident *ua.ExtensionObject
+		switch op.Ident {
+		case "username":
+			ident = ua.NewExtensionObject(&ua.UserNameIdentityToken{PolicyID: "username", UserName: "u", Password: []byte("p")})
+		case "issued":
+			ident = ua.NewExtensionObject(&ua.IssuedIdentityToken{PolicyID: "issued", TokenData: []byte{1, 2, 3}})
+		case "x509":
+			ident = ua.NewExtensionObject(&ua.X509IdentityToken{PolicyID: "certificate", CertificateData: []byte{0x30, 0}})
+		case "garbage": // an extension object the server does not know (type id of ReadRequest's data type node, no decoder)
+			ident = &ua.ExtensionObject{EncodingMask: ua.ExtensionObjectBinary, TypeID: ua.NewFourByteExpandedNodeID(0, 9999), Value: nil}
+		case "none":
+			ident = ua.NewExtensionObject(nil)
+		default:
+			ident = ua.NewExtensionObject(&ua.AnonymousIdentityToken{PolicyID: "anonymous"})
+		}
+		req := &ua.ActivateSessionRequest{ClientSignature: &ua.SignatureData{}, UserIdentityToken: ident, UserTokenSignature: &ua.SignatureData{}}
 		ev["sig_ok"] = true
+		ev["ident"] = op.Ident
 		_, err := c.call(req, tok, to)
 		if err != nil {
 			return ev, fail(err)
@@ -746,13 +782,17 @@ func (r *runner) exec(op Op) (map[string]any, Outcome) {
 		ev["sub"] = sub
 		ev["reads"] = op.Reads
 		req := &ua.CreateMonitoredItemsRequest{SubscriptionID: sub, TimestampsToReturn: ua.TimestampsToReturnNeither}
-		for i, rv := range op.Reads {
+		var handles []uint32
+		for _, rv := range op.Reads {
+			r.handle++
+			handles = append(handles, r.handle)
 			req.ItemsToCreate = append(req.ItemsToCreate, &ua.MonitoredItemCreateRequest{
 				ItemToMonitor:       &ua.ReadValueID{NodeID: parseNID(rv.Node), AttributeID: ua.AttributeID(rv.Attr), DataEncoding: &ua.QualifiedName{}},
 				MonitoringMode:      ua.MonitoringModeReporting,
-				RequestedParameters: &ua.MonitoringParameters{ClientHandle: uint32(i + 1), SamplingInterval: 100, QueueSize: 1, Filter: ua.NewExtensionObject(nil)},
+				RequestedParameters: &ua.MonitoringParameters{ClientHandle: r.handle, SamplingInterval: 100, QueueSize: 1, Filter: ua.NewExtensionObject(nil)},
 			})
 		}
+		ev["handles"] = handles
 		resp, err := c.call(req, tok, to)
 		if err != nil {
 			return ev, fail(err)
@@ -799,7 +839,12 @@ func (r *runner) exec(op Op) (map[string]any, Outcome) {
 		}
 		return ev, o
 	case "publish":
-		resp, err := c.call(&ua.PublishRequest{}, tok, 120*time.Millisecond)
+		pto := 120 * time.Millisecond
+		if op.Wait {
+			pto = 1500 * time.Millisecond
+			ev["wait"] = true
+		}
+		resp, err := c.call(&ua.PublishRequest{}, tok, pto)
 		if err == errTimeout {
 			return ev, Outcome{K: "publishqueued"}
 		}
@@ -811,7 +856,18 @@ func (r *runner) exec(op Op) (map[string]any, Outcome) {
 		}
 		if pr, ok := resp.(*ua.PublishResponse); ok && pr.ResponseHeader.ServiceResult == ua.StatusOK {
 			// the handler queued the request; a subscription worker of the session answered it in the meantime
-			return ev, Outcome{K: "publishqueued"}
+			o := Outcome{K: "publishqueued"}
+			if pr.NotificationMessage != nil {
+				for _, eo := range pr.NotificationMessage.NotificationData {
+					if dcn, ok := eo.Value.(*ua.DataChangeNotification); ok {
+						for _, mi := range dcn.MonitoredItems {
+							o.Notifs = append(o.Notifs, NotifJ{Handle: mi.ClientHandle, DV: projDV(mi.Value)})
+						}
+					}
+				}
+				sort.Slice(o.Notifs, func(i, j int) bool { return o.Notifs[i].Handle < o.Notifs[j].Handle })
+			}
+			return ev, o
 		}
 		return ev, Outcome{K: "error", Err: fmt.Sprintf("unexpected publish response %T", resp)}
 	case "svc":
@@ -1067,6 +1123,9 @@ func main() {
 			emit(map[string]any{"t": "space", "nodes": all})
 		}
 		for i := 0; i < *n; i++ {
+			if *mode == "c33" && i > 0 {
+				mutateC33(r, s, i) // the address space changes between histories (a reference type is added through the node API)
+			}
 			h := generate(r, *mode, i, s)
 			s.runHistory(h, false)
 		}
